@@ -234,6 +234,66 @@ def reuse(ck, sh, mm):
         ck.bounds.setdefault('cases', []).append('%s: one object solved three times (sources replaced, source added), arbitrary Z' % gname)
 
 
+def reuse_loaded(ck, sh, mm):
+    """As `reuse`, but with the REAL matrix fill (concrete catalogue geometry, nothing stubbed) and a load of arbitrary
+    impedance on the model: re-solving a loaded antenna after the excitation was changed gives the currents of a fresh
+    model -- whatever a solve leaves behind in the object (matrix, load terms, right-hand side) must not be used again."""
+    M = sh.mininec
+    for gname, p1, p2, pl in (('G8', 2, 0, 1), ('G1', 0, 2, 1)) if ck.tier == 'quick' else (('G8', 2, 0, 1), ('G1', 0, 2, 1), ('G7', 0, 3, 2)):
+        def fn(gname=gname, p1=p1, p2=p2, pl=pl):
+            V1, V2, ZL = SC.var('V1'), SC.var('V2'), SC.var('ZL')
+            c = symx.ctx()
+            for v in (V1, V2):
+                c.assume(z3.Or(v.nr != 0, v.ni != 0))
+
+            def build():
+                m = catalogue.build(M, gname)
+                m.register_load(M.Impedance_Load(ZL), pl)
+                return m
+            with symx.object_arrays():
+                m = build()
+                m.register_source(M.Excitation(V1), p1)
+                m.compute()
+                m.sources = []
+                m.register_source(M.Excitation(V2), p2)
+                m.compute()
+                Ia = m.current
+                fresh = build()
+                fresh.register_source(M.Excitation(V2), p2)
+                fresh.compute()
+            return dict(inputs=dict(V1=V1, V2=V2, ZL=ZL), Ia=Ia, If=fresh.current, Zh=m.Z, Zf=fresh.Z, n=len(m.pulses))
+
+        def goals(o):
+            n = o['n']
+            return [('second solve of a loaded model: system matrix of a fresh model', z3.And(*[eq_term(o['Zh'][i][i], o['Zf'][i][i]) for i in range(n)])),
+                    ('second solve of a loaded model: currents of a fresh model', z3.And(*[eq_term(o['Ia'][i], o['If'][i]) for i in range(n)]))]
+
+        def replay(c, gn, out, gname=gname, p1=p1, p2=p2, pl=pl):
+            V1, V2, ZL = complex(c['V1']), complex(c['V2']), complex(c['ZL'])
+            if ZL == 0:
+                ZL = 50 + 20j
+
+            def build():
+                m = catalogue.build(mm, gname)
+                m.register_load(mm.Impedance_Load(ZL), pl)
+                return m
+            m = build()
+            m.register_source(mm.Excitation(V1), p1)
+            m.compute()
+            m.sources = []
+            m.register_source(mm.Excitation(V2), p2)
+            m.compute()
+            fresh = build()
+            fresh.register_source(mm.Excitation(V2), p2)
+            fresh.compute()
+            a, b = np.array(m.current), np.array(fresh.current)
+            if np.allclose(a, b, rtol=1e-9, atol=1e-12 * abs(b).max()):
+                return None
+            return ('C07:reuse-loaded:%s' % gname, '%s with a load %r on pulse %d: after the sources were replaced on a model that was already solved '
+                    'the currents are %r, a fresh model gives %r' % (gname, ZL, pl + 1, a, b), dict(kind='reuse-loaded', geometry=gname))
+        prove_paths(ck, 'reuse-loaded-%s' % gname, fn, goals, replay, timeout_ms=30000)
+
+
 def total_power(ck, sh, mm):
     """compute() leaves in Mininec.power -- the number every dBi / V/m / near-field table is normalised with -- the sum of
     Re(V I*)/2 over the sources, for ALL complex voltages and whatever currents solve the system (the solve is replaced
@@ -359,6 +419,7 @@ def main(args):
     with symx.shadow.trace_functions(sh):
         linear(ck, sh, mm)
         reuse(ck, sh, mm)
+        reuse_loaded(ck, sh, mm)
         total_power(ck, sh, mm)
         source_data(ck, sh, mm)
     ck.functions = sh.entered
